@@ -18,7 +18,7 @@ import json, hashlib, copy
 from harness.lib import oracle as O, impl as I
 
 PROPERTY = 'C13'
-ERR = {1: 'ValueError', 2: 'KeyError', 3: 'IndexError', 4: 'TypeError'}
+ERR = {1: 'ValueError', 2: 'KeyError', 3: 'IndexError', 4: 'TypeError', 5: 'UnicodeDecodeError'}
 POS_KEYS = ['START', 'DONOR_START', 'ACCEPTER_START', 'ACCEPTER_POSITION']   # only used to bias generation
 
 # ------------------------------------------------------------------ encoding
@@ -74,6 +74,63 @@ def canon_exc(x):
     return x
 
 # ------------------------------------------------------------------ generators
+import os, re, glob as _glob
+_REPO = os.environ.get('VERIF_REPO', '/repo')
+_KEYS = None
+
+def key_pools():
+    """(shifted, real, synthetic): attribute keys harvested from the CURRENT source text of the repo.
+    shifted  = constant.ATTRS_POSITION (only used to decide which generated values must be integers)
+    real     = every upper-case key the code reads or writes in an attrs dict (attrs['K'], attrs.get('K'), 'K': ...)
+    synthetic= prefix / suffix / near-miss variations of the shifted keys and of END / POSITION / START"""
+    global _KEYS
+    if _KEYS is not None:
+        return _KEYS
+    shifted = ['START', 'DONOR_START', 'ACCEPTER_START', 'ACCEPTER_POSITION']
+    try:
+        src = open(os.path.join(_REPO, 'moPepGen', 'constant.py')).read()
+        m = re.search(r'ATTRS_POSITION\s*=\s*\[([^\]]*)\]', src)
+        if m:
+            shifted = re.findall(r"['\"]([^'\"]+)['\"]", m.group(1)) or shifted
+    except OSError:
+        pass
+    real = set()
+    for f in _glob.glob(os.path.join(_REPO, 'moPepGen', '**', '*.py'), recursive=True):
+        try:
+            src = open(f).read()
+        except OSError:
+            continue
+        real.update(re.findall(r"attrs\[\s*['\"]([A-Z][A-Z_0-9]+)['\"]\s*\]", src))
+        real.update(re.findall(r"attrs\.get\(\s*['\"]([A-Z][A-Z_0-9]+)['\"]", src))
+        real.update(re.findall(r"['\"]([A-Z][A-Z_0-9]{3,})['\"]\s*:", src))
+    real.update(['LEFT_INSERT_START', 'LEFT_INSERT_END', 'RIGHT_INSERT_START', 'RIGHT_INSERT_END', 'ACCEPTER_GENE_ID',
+                 'ACCEPTER_TRANSCRIPT_ID', 'ACCEPTER_SYMBOL', 'ACCEPTER_POSITION', 'ACCEPTER_GENOMIC_POSITION', 'DONOR_START',
+                 'DONOR_END', 'DONOR_GENE_ID', 'GENOMIC_POSITION', 'GENE_SYMBOL', 'COORDINATE', 'START', 'END'])
+    real -= {'TRANSCRIPT_ID'}
+    syn = set()
+    for b in list(shifted) + ['END', 'DONOR_END', 'POSITION', 'START', 'ACCEPTER_END', 'LENGTH', 'OFFSET']:
+        syn.update(['X_' + b, b + '_X', b + '2', b + 'S', b[:-1], b[1:], 'LEFT_INSERT_' + b, 'INSERT' + b, b + '_POSITION',
+                    b + '_START', b + '_END', 'MY' + b, b.replace('_', '') or 'Q', b + '_', '_' + b])
+    syn = {k for k in syn if re.fullmatch(r'[A-Z_0-9]+', k)} - {'TRANSCRIPT_ID'}
+    _KEYS = (list(shifted), sorted(real), sorted(syn))
+    return _KEYS
+
+UNI = 'éüñßøΩжλ中文日本🧬\u2028'        # 2-, 3- and 4-byte UTF-8 letters (and one non-ASCII separator)
+
+def uword(rng, lo=1, hi=8):
+    """a word with non-ASCII letters"""
+    return ''.join(rng.choice(UNI[:-1]) if rng.random() < 0.4 else rng.choice(ALNUM) for _ in range(rng.randint(lo, hi)))
+
+def adversarial_attr(rng):
+    shifted, real, syn = key_pools()
+    k = rng.choice(real) if rng.random() < 0.5 else rng.choice(syn)
+    if k in shifted or rng.random() < 0.6:
+        z = rng.randint(0, 10 ** rng.randint(0, 7))
+        v = z if rng.random() < 0.5 else str(z)
+    else:
+        v = rng.choice([word(rng), uword(rng), 'chr1:%d-%d' % (rng.randint(1, 999), rng.randint(1, 999)), '', '1.5', '-', 'NA'])
+    return [k, v]
+
 ALNUM = 'ABCDEFGHIJKLMNOPQRSTUVWXYZabcdefghijklmnopqrstuvwxyz0123456789'
 SAFE = ALNUM + '._-:|,/+()[] <>*'
 
@@ -91,6 +148,8 @@ def value(rng):
         return [word(rng) for _ in range(rng.randint(1, 3))]
     if r < 0.35:
         return rng.random() < 0.5
+    if r < 0.5:
+        return uword(rng, 1, 10)
     s = word(rng, 1, 12, SAFE).strip()
     return s if s else 'x'
 
@@ -157,13 +216,21 @@ def gen_record(rng, tx=None, kind=None):
         seqname = tx
         base.append(['GENE_ID', gene])
     if rng.random() < 0.7:
-        base.append(['GENE_SYMBOL', word(rng)])
+        base.append(['GENE_SYMBOL', uword(rng) if rng.random() < 0.3 else word(rng)])
     if rng.random() < 0.7:
         base.append(['GENOMIC_POSITION', 'chr%d:%d-%d' % (rng.randint(1, 22), rng.randint(1, 10 ** 8), rng.randint(1, 10 ** 8))])
     for _ in range(rng.choice([0, 0, 1, 2, 3])):
         k = word(rng, 2, 10, 'ABCDEFGHIJKLMNOPQRSTUVWXYZ_0123456789')
         base.append([k, value(rng)])
     attrs = base + attrs
+    # adversarial keys: real keys of the code base and near-misses of the shifted ones (existing keys keep their value)
+    if rng.random() < 0.6:
+        have = {k for k, _ in attrs}
+        for _ in range(rng.randint(1, 3)):
+            kv = adversarial_attr(rng)
+            if kv[0] not in have and not (kv[0] == 'END' and typ in ('Deletion', 'Substitution')):
+                have.add(kv[0])
+                attrs.append(kv)
     if rng.random() < 0.5:
         rng.shuffle(attrs)
     seen, uniq = set(), []
@@ -172,6 +239,8 @@ def gen_record(rng, tx=None, kind=None):
             seen.add(k)
             uniq.append([k, v])
     _id = '%s-%d-%s-%s' % (typ, start + 1, ref[:3], alt.strip('<>')[:3]) if rng.random() < 0.8 else word(rng, 1, 20, SAFE).strip() or 'id'
+    if rng.random() < 0.1:
+        _id = _id + '-' + uword(rng, 1, 4)
     return {'seqname': seqname, 'start': start, 'end': end, 'ref': ref, 'alt': alt, 'type': typ, 'id': _id, 'attrs': uniq}
 
 def rec_key(r):
@@ -197,7 +266,7 @@ def gen_bad_record(rng):
     elif m == 'semi':
         a[rng.randrange(len(a))][1] = rng.choice(['a;b', 'a;', ';'])
     elif m == 'trail_ws':
-        a[-1][1] = rng.choice(['x ', 'x\t', ' ', 'x\x0b'])
+        a[-1][1] = rng.choice(['x ', 'x\t', ' ', 'x\x0b', 'x\u00a0', 'x\u2003', 'x\x1f', 'x\x85', 'é\u3000'])
     elif m == 'ws_value':
         a[rng.randrange(len(a))][1] = rng.choice([' x', 'x y', 'x '])
     elif m == 'lower_key':
@@ -256,7 +325,8 @@ def gen_circ(rng, tx=None):
     genomic = rng.choice(['', 'chr%d:%d-%d' % (rng.randint(1, 22), rng.randint(1, 10 ** 8), rng.randint(1, 10 ** 8)),
                           'chrX:%d' % rng.randint(1, 10 ** 7)])
     cid = 'CIRC-%s-%s' % (tx, '-'.join('E%d' % (i + 1) for i in range(n)))
-    return {'tx': tx, 'frags': frags, 'intron': intron, 'id': cid, 'gene_id': gene, 'gene_name': word(rng), 'genomic': genomic}
+    gname = uword(rng) if rng.random() < 0.3 else word(rng)
+    return {'tx': tx, 'frags': frags, 'intron': intron, 'id': cid, 'gene_id': gene, 'gene_name': gname, 'genomic': genomic}
 
 def mutate_line(rng, line):
     ops = rng.randint(1, 2)
@@ -301,12 +371,21 @@ def gen_pool_case(rng, quick):
         for t in order:
             recs.append(gen_circ(rng, t) if circ else gen_record(rng, t))
         f = {'circ': circ, 'records': recs, 'idx': rng.random() < 0.55, 'edits': []}
-        if rng.random() < 0.3:
-            f.update({'reference_index': '/x/idx', 'genome_fasta': '/x/g.fa', 'annotation_gtf': '/x/a.gtf',
-                      'parser': rng.choice(['parseVEP', 'parseREDItools', 'parseSTARFusion', 'parseRMATS']), 'source': word(rng)})
+        if rng.random() < 0.5:
+            home = '/home/' + (uword(rng, 2, 6) if rng.random() < 0.6 else word(rng))
+            f.update({'reference_index': home + '/idx', 'genome_fasta': home + '/g.fa', 'annotation_gtf': home + '/a.gtf',
+                      'source': uword(rng) if rng.random() < 0.4 else word(rng)})
+            if not circ:
+                f['parser'] = rng.choice(['parseVEP', 'parseREDItools', 'parseSTARFusion', 'parseRMATS'])
+        f['pre_edits'] = []
+        if rng.random() < 0.15:
+            f['pre_edits'].append({'type': 'crlf'})          # a CRLF file, indexed (or opened) as such
         r = rng.random()
         if r < 0.45 and (f['idx'] or rng.random() < 0.5):
-            t = rng.choice(['append', 'reorder', 'byte', 'drop_last', 'touch'])
+            t = rng.choice(['append', 'reorder', 'byte', 'drop_last', 'touch', 'rewrite_identical',
+                            'crlf', 'crlf', 'lf', 'trail_ws', 'trail_ws', 'bom', 'final_newline', 'lone_cr'])
+            if t == 'bom' and not f['idx']:
+                t = 'crlf'                                   # without .idx a BOM only hits the (unmodelled) metadata parser
             if t == 'append':
                 new = gen_circ(rng, rng.choice(txs)) if circ else gen_record(rng, rng.choice(txs))
                 f['edits'].append({'type': 'append', 'rec': new})
@@ -315,6 +394,10 @@ def gen_pool_case(rng, quick):
             elif t == 'byte':
                 f['edits'].append({'type': 'byte', 'pos': rng.randrange(10 ** 6),
                                    'char': rng.choice('ACGT0123456789;=\t.#x<>\n ')})
+            elif t == 'lone_cr':
+                f['edits'].append({'type': t, 'a': rng.randrange(100)})
+            elif t == 'trail_ws':
+                f['edits'].append({'type': t, 'a': rng.randrange(100), 'ws': rng.choice([' ', '\t', '  ', ' \t'])})
             else:
                 f['edits'].append({'type': t})
         files.append(f)
@@ -383,6 +466,17 @@ def check_wpw(acc, c, r, m, fixed=None):
     prop_ok = isinstance(s1, str) and s1 == s2
     if c.get('wf'):
         acc.count(kind + '/wf')
+        if kind == 'wpw':
+            shifted, real, syn = key_pools()
+            ks = [k for k, _ in c['rec']['attrs']]
+            if any(k in syn for k in ks):
+                acc.count('wpw/wf_with_synthetic_near_miss_key')
+            if any(k in real and k not in shifted for k in ks):
+                acc.count('wpw/wf_with_real_unshifted_key')
+            if any(k.endswith(('_START', '_END', '_POSITION')) and k not in shifted for k in ks):
+                acc.count('wpw/wf_with_START_END_POSITION-like_unshifted_key')
+        if isinstance(s1, str) and any(ord(ch) > 127 for ch in s1):
+            acc.count(kind + '/wf_with_non_ascii')
         if isinstance(s1, str):
             acc.nontriv.add(s1)
         if not prop_ok:
@@ -406,7 +500,7 @@ def check_wpw(acc, c, r, m, fixed=None):
                  extra={'name': 'corr:C13/' + kind}, no_input=True)
 
 def split_lines(text):
-    """lines as `for line in handle` yields them (terminators kept)"""
+    """lines as `for line in <binary handle>` yields them (terminators kept); text: one char per byte"""
     out = text.split('\n')
     res = [l + '\n' for l in out[:-1]]
     if out[-1] != '':
@@ -434,9 +528,9 @@ def pool_requests(c, r):
         ic = fo.get('is_circ', f['circ'])
         lines = split_lines(fo['final'])
         reqs.append(('c13_iterate_pointer', [ic, lines]))
-        reqs.append(('c13_index_lines', [ic, split_lines(fo['text1'])]))
+        reqs.append(('c13_index_lines', [ic, split_lines(fo['indexed'])]))
         idx = [idx_spec(fo['idx_text'])] if isinstance(fo.get('idx_text'), str) else []
-        reqs.append(('c13_open', [ic, lines, fo['sha512'], idx]))
+        reqs.append(('c13_open', [ic, lines, hashlib.sha512(fo['final'].encode('latin-1')).hexdigest(), idx]))
     return reqs
 
 def check_pool(acc, c, r, ms, second):
@@ -449,11 +543,21 @@ def check_pool(acc, c, r, ms, second):
         return
     files = r['files']
     stale_expected = False
+    fresh_idx = 0
     model_ptrs = []
     model_open_err = None
     for i, (f, fo) in enumerate(zip(c['files'], files)):
         ic = fo.get('is_circ', f['circ'])
         m_iter, m_idx, m_open = ms[3 * i], ms[3 * i + 1], ms[3 * i + 2]
+        body = fo['final'].split('#CHROM')[0] if '#CHROM' in fo['final'] else ''
+        if any(ord(ch) > 127 for ch in body):
+            acc.count('pool/files_with_multibyte_char_in_header')
+        if any(ord(ch) > 127 for ch in fo['final']):
+            acc.count('pool/files_with_multibyte_char')
+        if '\r\n' in fo['final']:
+            acc.count('pool/files_crlf')
+        for e in f['edits']:
+            acc.count('pool/edit:%s%s' % (e['type'], '+idx' if f.get('idx') else ''))
         # T: byte-identical second write
         if fo['text2'] != fo['text1']:
             d6 = f['circ'] and is_d6(fo['text1'], fo['text2'])
@@ -469,13 +573,15 @@ def check_pool(acc, c, r, ms, second):
                      extra={'name': 'corr:C13/iterate_pointer'}, no_input=True)
         # indexGVF text
         if f.get('idx'):
-            sha1 = hashlib.sha512(fo['text1'].encode()).hexdigest()
+            sha1 = hashlib.sha512(fo['indexed'].encode('latin-1')).hexdigest()
             mx = dec_res(m_idx, lambda ls: '# CHECKSUM=%s\n' % sha1 + ''.join(O.U(l) for l in ls))
             if mx != canon_exc(fo['idx_text']):
                 acc.viol('corr:C13/index_gvf file %d: model %r vs impl %r' % (i, str(mx)[-200:], str(fo['idx_text'])[-200:]), c,
                          extra={'name': 'corr:C13/index_gvf'}, no_input=True)
-            if fo['final'] != fo['text1']:
+            if fo['final'] != fo['indexed']:
                 stale_expected = True
+            else:
+                fresh_idx += 1
         mo = dec_res(m_open, lambda ps: [[O.U(k), s, e] for k, s, e in ps])
         if isinstance(mo, dict) and model_open_err is None:
             model_open_err = mo
@@ -485,6 +591,13 @@ def check_pool(acc, c, r, ms, second):
         acc.count('pool/stale_idx')
         if 'open_error' not in r:
             acc.viol('an .idx that does not belong to the file content was accepted', c)
+            return
+    elif fresh_idx and all((not f.get('idx')) or fo['final'] == fo['indexed'] for f, fo in zip(c['files'], files)) \
+            and all(not f['edits'] or f.get('idx') for f in c['files']):
+        # every .idx belongs to exactly the bytes of its file (and no un-indexed file was edited): must be accepted
+        acc.count('pool/fresh_idx')
+        if 'open_error' in r:
+            acc.viol('an .idx written for exactly these bytes was rejected (%s)' % r['open_error'], c)
             return
     # opening: same outcome
     if 'open_error' in r or model_open_err is not None:
@@ -505,7 +618,19 @@ def check_pool(acc, c, r, ms, second):
                      extra={'name': 'corr:C13/pointers'}, no_input=True)
     # K: per key, pointer route == scan route (on the implementation's own outputs)
     scan_ok = all(isinstance(fo['scan'], list) for fo in files)
+    # signature of finding C13-loneCR: a carriage return that is not part of CRLF -- a line break for the text-mode
+    # readers (seqvar.io.parse / circ.io.parse on an open(..., 'r') handle) but not for the binary index
+    lone_cr = any(re.search('\r(?!\n)', fo['final']) for fo in files)
     keys = list(r['loads'].keys())
+    scan_keys = []
+    if scan_ok:
+        for fo in files:
+            for kk, _ in fo['scan']:
+                if kk not in r['loads'] and kk not in scan_keys:
+                    scan_keys.append(kk)
+    for k in scan_keys:
+        acc.viol('key %s: found by the linear scan but the pool has no pointer for it' % k, c,
+                 finding='C13-loneCR' if lone_cr else None)
     for k in keys:
         via_ptr = canon_exc(r['loads'][k])
         if scan_ok:
@@ -513,13 +638,17 @@ def check_pool(acc, c, r, ms, second):
             present = any(kk == k for fo in files for kk, _ in fo['scan'])
             if present:
                 if isinstance(via_ptr, dict) or sorted(map(json.dumps, via_ptr)) != sorted(map(json.dumps, via_scan)):
-                    acc.viol('key %s: records through pointers %s differ from the linear scan %s' % (k, str(via_ptr)[:300], str(via_scan)[:300]), c)
+                    acc.viol('key %s: records through pointers %s differ from the linear scan %s' % (k, str(via_ptr)[:300], str(via_scan)[:300]), c,
+                             finding='C13-loneCR' if lone_cr else None)
+                    if lone_cr:
+                        acc.count('C13-loneCR_hits')
                 else:
                     acc.nontriv.add(json.dumps([k, via_scan], sort_keys=True)[:4000])
                     if sum(1 for ps in impl_ptrs for p in ps if p[0] == k) > 1:
                         acc.count('pool/keys_with_several_pointers')
             elif not (isinstance(via_ptr, dict) and via_ptr['__exc__'] == 'KeyError'):
-                acc.viol('key %s absent from every file but lookup gave %s' % (k, str(via_ptr)[:200]), c)
+                acc.viol('key %s absent from every file but lookup gave %s' % (k, str(via_ptr)[:200]), c,
+                         finding='C13-loneCR' if lone_cr else None)
     # model: pool_get / scan_get per key
     mfiles_ptr = [[fo.get('is_circ', f['circ']), split_lines(fo['final']), model_ptrs[i]]
                   for i, (f, fo) in enumerate(zip(c['files'], files))]
